@@ -482,6 +482,9 @@ func init() {
 		bs := in.bytesOf(args[2])
 		return in.crc(prev, bs)
 	}
+	reg(rtPkg+".CRC32C", func(in *Interp, fr *frame, fn *ssa.Function, args []Value) Value {
+		return in.crc(args[0].(*T), in.bytesOf(args[1]))
+	})
 	reg("hash/crc32.Update", crcUpdate)
 	reg("github.com/klauspost/crc32.Update", crcUpdate)
 	mkTable := func(in *Interp, fr *frame, fn *ssa.Function, args []Value) Value {
